@@ -28,6 +28,7 @@ def run(ctx, db, tier):
     worker(ctx, db)
     locks.check_guarded(ctx, db, 'C11.locks', {k: v for k, v in GUARDED.items() if k.startswith('cocls::thread_pool::')}, [TP], per_instance=False, floor=10)
     await_resume(ctx, db)
+    run_resolves_once(ctx, db)
 
 
 def _enqueued_lambdas(db):
@@ -289,3 +290,41 @@ def await_resume(ctx, db):
         if r >= 0 and not any(e.k == 'call' and norm(e.get('callee')) == 'std::unique_ptr::release' for e in evl):
             continue      # the deleter lambda itself
         ctx.ob(rid, lf, lf['key'], 0 <= w < r, 'the closure clears the awaiter\'s handle before resuming on the worker', desc='closure resumes before clearing the cancelled marker')
+
+
+def run_resolves_once(ctx, db):
+    rid = ctx.rule('C11.run-resolves-once', 'COUNT', 'the closure enqueued by thread_pool::run(fn) resolves its promise exactly once on the normal path (with the result / void) and exactly once with '
+                   'current_exception() on every exception edge from the call of the user function; a catch-all exists (an escaping exception would terminate the worker and leave the '
+                   'future pending)', floor=1)
+    PROM = ('cocls::promise::operator()', 'cocls::promise::set_value', 'cocls::promise::set_exception')
+    cands = []
+    for f in db.all_instances():
+        if f.get('lambda') and f['nname'].startswith('cocls::thread_pool::run') and any(e.k == 'call' and norm(e.get('callee')) in PROM for e in f.events()) \
+                and any(e.k == 'call' and norm(e.get('callee') or '') == 'std::get' for e in f.events()):
+            cands.append(f)
+    if not cands:
+        raise Broken('closure of thread_pool::run(fn) not found')
+
+    def may_throw(ev):
+        return ev.k == 'call' and not ev.get('nothrow') and norm(ev.get('callee') or '') not in PROM + ('std::get', 'std::move', 'std::forward') and ev.get('try') is not None
+    T = Tracer(db, depth=0, exc_edges=may_throw)
+    seen_bad = None
+    for f in cands:
+        if not any((b.get('label') or {}).get('kind') == 'catch' and b['label'].get('type') == '...' for b in f['blocks']):
+            seen_bad = seen_bad or (f, 'no catch(...) in the task closure'); continue
+        nexc = 0
+        for tr in T.traces(f):
+            if not live(tr):
+                continue
+            pc = [c for c in calls(tr) if norm(c.get('callee')) in PROM]
+            exc = any(it.k == 'exception' for it in tr)
+            nexc += exc
+            if len(pc) != 1:
+                seen_bad = seen_bad or (f, 'the promise is resolved %d times on a %s path' % (len(pc), 'exception' if exc else 'normal'))
+            elif exc and not any('current_exception' in (a.get('path') or '') for a in pc[0].get('args', [])):
+                seen_bad = seen_bad or (f, 'the exception is not delivered to the future')
+        if nexc == 0:
+            seen_bad = seen_bad or (f, 'no exception edge reaches the handler')
+    f0 = cands[0]
+    ctx.ob(rid, f0, f0['key'], seen_bad is None, 'run(fn) closure resolves exactly once per outcome (%d instantiations)' % len(cands) + ('' if not seen_bad else ' -- ' + seen_bad[1]),
+           desc=seen_bad[1] if seen_bad else None, inst=seen_bad[0]['inst'] if seen_bad else None)
